@@ -5,7 +5,7 @@ command grid in 16 shard processes, merges the shard results, classifies finding
 known_findings.json, writes evidence/C20.json.  exit 0 held / 1 VIOLATION / 3 internal error."""
 import json, os, subprocess, sys, time, glob, shutil
 
-V = "/verif"
+V = os.path.dirname(os.path.dirname(os.path.abspath(__file__)))
 tier = sys.argv[1] if len(sys.argv) > 1 else os.environ.get("VERIF_TIER", "quick")
 B = f"{V}/.build/c20"
 env = dict(os.environ, GOFLAGS="-mod=mod", GOPROXY="off", GOSUMDB="off", GOTOOLCHAIN="local")
